@@ -121,6 +121,9 @@ impl<D: PlaneStore> NodeStore for SwimNodeStore<D> {
     }
 
     fn lane_id_of(&self, lane: &str) -> Result<u64, StoreError> {
+        // The name of the lane is escaped so that the last '/' always separates the node URI from
+        // the lane name (otherwise "/a" + "b/c" and "/a/b" + "c" would share an ID).
+        let lane = lane.replace('%', "%25").replace('/', "%2F");
         let node_id = format!("{}/{}", self.node_uri, lane);
         self.delegate.node_id_of(node_id)
     }
